@@ -241,6 +241,8 @@ class Check:
                     lines.append(f'ok {k} # SKIP nope\n')
                 else:
                     lines.append(f'not ok {k} # TODO later\n')
+            if n > 0 and rng.random() < 0.15:
+                lines = [f'1..{n}\n'] + [f'ok {k} # SKIP not here\n' for k in range(1, n + 1)]      # every subtest skipped
             if rng.random() < 0.1:
                 lines.pop()     # plan/count mismatch (or no plan at all when n == 0 -> empty)
             text = ''.join(lines)
@@ -516,9 +518,17 @@ class Check:
                     exp = MR.classify_exitcode(s['code'], t['should_fail'], t.get('expected_exitcode') or 0)
             if exp == 'TAP':
                 lines = s['tap_text'].splitlines(True)
-                vb = tap_ref.verdict_bad(tap_ref.interpret(lines), s['code'] != 0)
+                ref = tap_ref.interpret(lines)
+                vb = tap_ref.verdict_bad(ref, s['code'] != 0)
                 if vb is not None and vb != (got in MR.BAD):
                     return R.violation('misclassified', f'TAP test {p.tid} (exit {s["code"]}, output {s["tap_text"]!r}) reported {got}', 'misclassified:tap', trace=trace)
+                if vb is False and all(l.kind != 'test?' for l in ref):
+                    # a good TAP test is SKIP when every subtest was skipped (Unit-tests.md: `1..0 # SKIP`, `ok N # SKIP`), else OK
+                    subs = [l.test[2] for l in ref if l.kind == 'test' and l.test is not None]
+                    if subs and all(x == 'SKIP' for x in subs) and got != 'SKIP':
+                        return R.violation('misclassified', f'TAP test {p.tid} whose subtests were all skipped ({s["tap_text"]!r}) reported {got}, not SKIP', 'misclassified:tap-skip', trace=trace)
+                    if any(x != 'SKIP' for x in subs) and got == 'SKIP':
+                        return R.violation('misclassified', f'TAP test {p.tid} with subtests that ran ({s["tap_text"]!r}) reported SKIP', 'misclassified:tap-skip', trace=trace)
             elif exp == 'TIMEOUT' and got == 'INTERRUPT' and (hsig or run.get('maxfail', 0) > 0) and terms[0][0] - p.spawn_t <= teff + 1e-6:
                 # the harness's own cancellation and the timer coincide: either may win the tie
                 any_interrupt = True
